@@ -58,6 +58,11 @@ def make_cert(subject_cn, subject_pub, issuer_cn, issuer_key, window="valid", se
         nb, na = now - 400 * DAY, now - 2 * DAY
     elif window == "not_yet":
         nb, na = now + 2 * DAY, now + 400 * DAY
+    elif window == "expired_recently":
+        # within any time-zone offset of "now" (but hours away from it)
+        nb, na = now - 400 * DAY, now - 3 * DAY / 24
+    elif window == "valid_soon":
+        nb, na = now + 3 * DAY / 24, now + 400 * DAY
     else:
         raise ValueError(window)
     b = (x509.CertificateBuilder().subject_name(name(subject_cn)).issuer_name(name(issuer_cn))
